@@ -150,7 +150,9 @@ package types
 //@        && attrHas(attrs, "gseq") && attrVal(attrs, "gseq") == attrs[4].Value && attrHas(attrs, "oseq") && attrVal(attrs, "oseq") == attrs[5].Value
 //@        && attrHas(attrs, "provider") && attrVal(attrs, "provider") == attrs[6].Value && attrHas(attrs, "price-denom") && attrVal(attrs, "price-denom") == attrs[7].Value
 //@        && attrHas(attrs, "price-amount") && attrVal(attrs, "price-amount") == attrs[8].Value
-//@   trigger len(attrs)
+//@   trigger attrFirst(attrs, "module", len(attrs))
+//@   trigger attrFirst(attrs, "owner", len(attrs))
+//@   trigger attrFirst(attrs, "price-denom", len(attrs))
 //@ func orderIDEVAttributes
 //@   fresh
 //@   ensures len(result) == 4 && result[0].Key == "owner" && result[0].Value == id.Owner && result[1].Key == "dseq" && result[1].Value == itoa(id.DSeq)
